@@ -1196,6 +1196,9 @@ type c19OutMeta struct {
 	Ops       []c19OutOp `json:"ops"`
 	File      string     `json:"file,omitempty"` // "", "text", "binary"
 	EarlyRead bool       `json:"early_read,omitempty"`
+	// Stale: the file exists before it is opened in write mode and is longer than anything the case writes; the sink is
+	// emptied by open/4 (ISO 8.11.5.3), so what is read back is still exactly the output
+	Stale bool `json:"stale,omitempty"`
 }
 
 const c19OutFile = "o.txt"
@@ -1264,6 +1267,7 @@ func (c *c19) outputPart(cx *Ctx, n int) c19Part {
 			m.File = "text"
 		}
 		m.EarlyRead = r.Intn(3) == 0
+		m.Stale = m.File != "" && r.Intn(2) == 0
 		cur := "user" // where the 1-argument forms write
 		n := 2 + r.Intn(7)
 		for k := 0; k < n; k++ {
@@ -1340,6 +1344,9 @@ func (c *c19) outputPart(cx *Ctx, n int) c19Part {
 		var cases []*proto.Case
 		for _, conj := range []bool{true, false} {
 			c := &proto.Case{Kind: "prolog", Setup: []string{c19OutSetup}}
+			if m.Stale {
+				c.Files = map[string]string{c19OutFile: strings.Repeat("stale content of an earlier run\n", 12)}
+			}
 			c.Steps, _, _ = m.steps(conj)
 			cases = append(cases, c)
 		}
